@@ -154,6 +154,11 @@ class StepBudget(object):
             m.set_local_events(self.TOOL, c, m.events.LINE)
         return self
 
+    def reset(self, budget=None):
+        self.count = 0
+        if budget is not None:
+            self.budget = int(budget)
+
     def __exit__(self, *a):
         m = sys.monitoring
         for c in self.codes:
